@@ -344,8 +344,13 @@ class Verifier:
                     ex.prove(f, '%s/post#%d' % (c.oname, k), 'post', e, c.tags.get(e, 'property'))
             else:
                 spec = None
-                for ecls, sp in c.raises.items():
-                    if ex.exc_isinstance(exc.cls, ecls): spec = sp; break
+                if exc.cls in c.raises: spec = c.raises[exc.cls]       # the clause of the class itself, if declared ...
+                else:
+                    # ... else the most specific declared ancestor (a declared class that is itself a subclass of every other matching one)
+                    cands = [ecls for ecls in c.raises if ex.exc_isinstance(exc.cls, ecls)]
+                    best = [e1 for e1 in cands if all(ex.exc_isinstance(e1, e2) for e2 in cands)]
+                    if best: spec = c.raises[best[0]]
+                    elif cands: spec = c.raises[cands[0]]
                 if spec is None:
                     self.prove(ex, z3.BoolVal(False), '%s/raises-only-declared' % c.oname, 'raises',
                                'no exception other than %s escapes (got %s at line %s)' % (sorted(c.raises) or 'none', exc.cls, ex.cur_loc), 'auxiliary')
